@@ -6,6 +6,7 @@ from .. import compile_exec, gen
 PROPERTY = "C02"
 TRACE_MODULE = "PipelineTrace"
 TRACE_CFG = "PipelineTrace.cfg"
+ACCEPTORS = {"_default": ("PipelineTrace", "PipelineTrace.cfg"), "vf": ("VFTrace", "VFTrace.cfg")}
 RULE = ("random exact-domain UFOs (line / quadratic / cubic contours, nested mirrored / sheared / scaled components, mixed "
         "glyphs) x {convertCubics, reverseDirection, flattenComponents} x {defcon, ufoLib2} (every fourth converting case with an "
         "explicit cubicConversionError in 0.0001..0.002 and / or unitsPerEm in 100..2000, where the deviation of the unrounded "
@@ -83,12 +84,35 @@ def cases(tier, seed):
             continue
         out.append({"cid": f"c02-{seed}-i{k}", "lib": rng.choice(["ufoLib2", "defcon"]), "interp": True, "masters": masters,
                     "via": rng.choice(["list", "ds"]), "kwargs": {"flattenComponents": rng.random() < 0.3}})
+    # the variable TrueType font itself: what it draws at every master's location is that master's shape.  The family has a
+    # composite made of the same base twice whose SECOND (or first) component is enlarged in one master only -- a 2x2 that
+    # cannot vary in a variable font, so the glyph has to be stored as contours in every master
+    for k in range(6 if tier == "quick" else 60):
+        fam = gen.rich_family(rng, n_masters=3 if k % 2 else 2, kerning=False, features=False)
+        if "colon" in fam["masters"][0]["ufo"]["glyphs"]:
+            for m in fam["masters"]:
+                for c in m["ufo"]["glyphs"]["colon"]["comps"]:
+                    c["m"] = [64, 0, 0, 64]
+            m_ = [m for m in fam["masters"] if m["loc"]["Weight"] != 400][k % 2 if len(fam["masters"]) == 3 else 0]
+            m_["ufo"]["glyphs"]["colon"]["comps"][1 if k % 3 else 0]["m"] = [80, 0, 0, 48]
+        out.append({"cid": f"c02-{seed}-v{k}", "var": True, "lib": rng.choice(["ufoLib2", "defcon"]), "fam": fam, "flavor": "tt",
+                    "varFeatures": True, "prodNames": True})
     return out
 
 
 def execute(case):
     if case.get("interp"):
         return compile_exec.interp_tt_compile(case)
+    if case.get("var"):
+        from . import c10
+
+        recs = []
+        for r in c10.execute(case):
+            if r.get("err"):
+                raise RuntimeError("variable compile failed: " + r["err"])
+            if r.get("_acc") == "vf":
+                recs.append(r)
+        return recs
     return [compile_exec.static_compile(case)]
 
 
@@ -99,4 +123,6 @@ def preclassify(rec, rep):
 
 
 def nontrivial(rec):
+    if rec.get("_acc") == "vf":
+        return rec.get("_k", 0) > 0
     return any(g["comps"] for g in rec["src"].values())
